@@ -29,14 +29,23 @@ def extract(source):
     """All import statements of a source text as abstract statements with their position (slot path)."""
     tree = ast.parse(source)
     out = []
+    text = source.splitlines()
+
+    def layout(node):
+        # Scan.tla 'lay' for real code: alone on its physical line(s), behind other text on its line, or multi-line
+        if (node.end_lineno or node.lineno) > node.lineno:
+            return "multiline"
+        before = text[node.lineno - 1].encode()[:node.col_offset].decode(errors="replace") if node.lineno <= len(text) else ""
+        return "line" if not before.strip() else "inline"
 
     def emit(node, pos):
         if isinstance(node, ast.Import):
             for i, a in enumerate(node.names):
-                out.append({"form": "import", "level": 0, "module": a.name.split("."), "names": [], "pos": list(pos)})
+                out.append({"form": "import", "level": 0, "module": a.name.split("."), "names": [], "pos": list(pos),
+                            "lay": layout(node)})
         elif isinstance(node, ast.ImportFrom):
             out.append({"form": "from", "level": node.level, "module": node.module.split(".") if node.module else [],
-                        "names": [a.name for a in node.names], "pos": list(pos)})
+                        "names": [a.name for a in node.names], "pos": list(pos), "lay": layout(node)})
 
     def visit(node, pos, owner=None):
         emit(node, pos)
@@ -141,8 +150,8 @@ def materialise(project, base):
                     for s in extract(fh.read()):
                         stmts.append({"file": rel + [stem], **s})
     key = lambda f: f["name"]
-    skey = lambda s: (s["file"], s["form"], s["level"], s["module"], s["names"], s["pos"])
-    want_stmts = [{k: s[k] for k in ("file", "form", "level", "module", "names", "pos")} for s in project["stmts"]]
+    skey = lambda s: (s["file"], s["form"], s["level"], s["module"], s["names"], s["pos"], s["lay"])
+    want_stmts = [{k: s[k] for k in ("file", "form", "level", "module", "names", "pos", "lay")} for s in project["stmts"]]
     if (sorted(dirs) != sorted(project["dirs"]) or sorted(files, key=key) != sorted(project["files"], key=key)
             or sorted(stmts, key=skey) != sorted(want_stmts, key=skey)):
         raise pj.RenderError("copied tree differs from the abstracted project")
